@@ -111,6 +111,126 @@ def tg_line(graph):
     return "tg {} {}".format("|".join(f"{n}:{dim}:{'+'.join(cv) if cv else '.'}" for n, dim, cv in fs), ",".join(data) if data else ".")
 
 
+def snap_attr(v):
+    if isinstance(v, np.ndarray):
+        return ("a", v.dtype.str, v.shape, v.tobytes())
+    if isinstance(v, (list, tuple)):
+        return tuple(snap_attr(t) for t in v)
+    if isinstance(v, (float, np.floating)):
+        return float(v)
+    return v if isinstance(v, (int, str, bool, type(None))) else repr(v)
+
+
+NUTS_RESET = {"_epsilon_bar": 1, "_H_bar": 0, "_acc": (1,), "_samples": (), "num_tree_node_list": (), "epsilon_list": (), "epsilon_bar_list": ()}
+NOT_COMPARED = ("current_target_logd", "current_target_grad", "current_likelihood_logd")   # the cache tie (with its repair tolerance) covers these
+
+
+def tv_lines(J0, datav, cur, n, probes):
+    """driver lines `tv` for the value of the object handed to block n at the probe points: the leaf log-densities of the
+    user's unconditioned densities are evaluated on the real code at (data, current other blocks, probe) and handed to the
+    model as a table; returns (lines, magnitude) or None when a leaf is not finite / cannot be evaluated"""
+    lines, mag = [], 0.0
+    kw = lambda d_: "&".join(f"{k}={qv(vec(v))}" for k, v in d_.items()) if d_ else "."
+    for p in probes:
+        vals = {k: vec(v) for k, v in datav.items()}
+        vals.update({k: vec(v) for k, v in cur.items()})
+        vals[n] = vec(p)
+        facs = []
+        for d in J0._densities:
+            cv = list(d.get_conditioning_variables())
+            try:
+                with quiet():
+                    dd = d(**{c: vals[c] for c in cv}) if cv else d
+                    lv = float(np.asarray(dd.logd(vals[d.name])).reshape(-1)[0])
+            except Exception:
+                return None
+            if not math.isfinite(lv):
+                return None
+            mag += abs(lv)
+            facs.append(f"{d.name};{int(d.dim)};{','.join(cv) if cv else '.'};{'&'.join(qv(vals[k]) for k in [d.name] + cv)}={q(lv)}")
+        lines.append("tv {} {} {} {} {}".format(n, qv(vec(p)), kw({k: v for k, v in cur.items() if k != n}), kw(datav), " ".join(facs)))
+    return lines, mag
+
+
+def nt_pending(ctx, K, desc, attr_obs, stats):
+    """tie of Model/C09_nuts.lean: for every observed start of a block update (sweep >= 2 of the sampler) the origin the model
+    gives every state / history key (kept = value at the end of the previous sweep, tuning included; point = the block's
+    current value; fresh = the known reset value; dflt = the class default) against the live attribute"""
+    pend = []
+    for n, cls, is_nuts, st_keys, hi_keys, now, prev, curv, step_size, dflt_depth, mu in attr_obs:
+        attrs = [a for a in now if a not in NOT_COMPARED]
+        line = ("nt nuts " + ",".join(attrs)) if is_nuts else "nt 0 {} {} . . {}".format(",".join(st_keys), ",".join(hi_keys), ",".join(attrs))
+
+        def cb(out, n=n, cls=cls, is_nuts=is_nuts, st_keys=st_keys, hi_keys=hi_keys, now=now, prev=prev, curv=curv, step_size=step_size, dflt_depth=dflt_depth, mu=mu):
+            def dis(a, model, impl, what):
+                ctx.disagree(f"{K}:state:{cls}:{a}", dict(desc, block=n), model, str(impl)[:120], what)
+            if is_nuts:
+                mk, hk, out = out.split("|")
+                # (a class that no longer lists `max_depth` as a state key keeps the user's value: a repair, tolerated below)
+                if sorted(set(mk.split(",")) - {"max_depth"}) != sorted(set(st_keys) - {"max_depth"}) or sorted(hk.split(",")) != hi_keys:
+                    dis("_STATE_KEYS", [mk, hk], [st_keys, hi_keys], "the model's table of NUTS state / history keys differs from the class"); return
+            stats["state_ties"] = stats.get("state_ties", 0) + 1
+            for item in out.split(","):
+                a, _, org = item.partition("=")
+                stats["state_origins"][org] = stats["state_origins"].get(org, 0) + 1
+                v = now[a]
+                if org == "prev" and v != prev.get(a):
+                    dis(a, "kept from the previous sweep", "changed", "an attribute the protocol should carry over (state / history key, constructor parameter) changed between sweeps"); return
+                if org == "point" and not np.array_equal(curv[1][a], curv[0]):
+                    dis(a, "the block's current value", "differs", "current_point / initial_point is not the block's current value"); return
+                if org == "fresh":
+                    if a in NUTS_RESET and not ((v == NUTS_RESET[a]) if isinstance(NUTS_RESET[a], tuple) else (v == NUTS_RESET[a] or v == float(NUTS_RESET[a]))):
+                        dis(a, f"reset to {NUTS_RESET[a]}", v, "an attribute of NUTS that reinitialize()/_pre_warmup() should reset carries something else"); return
+                    if a == "_epsilon" and step_size is not None and v != snap_attr(step_size):
+                        dis(a, "step_size", v, "NUTS._epsilon is not reset to the configured step_size"); return
+                    if a == "_mu" and mu is not None and not close(mu[0], mu[1], 1e-12):
+                        dis(a, mu[0], mu[1], "NUTS._mu is not log(10 * _epsilon) of the re-found step size"); return
+                if org == "dflt" and v == prev.get(a) and v != dflt_depth:
+                    stats["nuts_max_depth_kept"] = stats.get("nuts_max_depth_kept", 0) + 1
+                    continue
+                if org == "dflt" and v != dflt_depth:
+                    dis(a, f"class default {dflt_depth}", v, "a state key that initialize() does not assign is not at its class default"); return
+                if org == "unset":
+                    dis(a, "ValueError from _validate_initialization", v, "the model predicts the protocol cannot complete"); return
+        pend.append((line, cb))
+    return pend
+
+
+def tv_pending(ctx, K, desc, tv_items, tol, stats, had):
+    pend = []
+    for lines, reals, n, mag in tv_items:
+        box = []
+
+        def cb(out, box=box, reals=reals, n=n, mag=mag, k=len(lines)):
+            box.append(out)
+            if len(box) == k:
+                tv_compare(ctx, K, desc, box, reals, n, tol, mag, stats, had)
+        pend.extend((l, cb) for l in lines)
+    return pend
+
+
+def tv_compare(ctx, K, desc, outs, reals, n, tol, mag, stats, had_target_failure):
+    """value tie: the handed object's logd at two probe points against the model's evaluation through C01's executable
+    model.  Differences between the probes are compared (what decides the conditional); an equal offset at both probes
+    (a constant, C01's matter) is counted in the evidence, not reported."""
+    from fractions import Fraction
+    vals = []
+    for o in outs:
+        f = o.split("|")
+        if f[0] != "ok":
+            ctx.disagree(f"{K}:target:value", dict(desc, block=n), o[:80], reals, "the model cannot evaluate the handed target (leaf outside the table / error)"); return
+        vals.append(float(Fraction(f[2])))
+    stats["value_ties"] = stats.get("value_ties", 0) + 1
+    slack = lambda a, b: tol * (1.0 + max(abs(a), abs(b))) + 1e-11 * mag
+    dm, dr = vals[0] - vals[1], reals[0] - reals[1]
+    if abs(dm - dr) > slack(dm, dr):
+        ctx.disagree(f"{K}:target" + ("" if had_target_failure() else ":value"), dict(desc, block=n), {"logd": vals, "difference": dm}, {"logd": reals, "difference": dr},
+                     "the handed object's log-density (difference between two probe points) is not the model's joint evaluation on the recorded leaf log-densities")
+        return
+    if abs(vals[0] - reals[0]) > slack(vals[0], reals[0]):
+        stats["handed_constant_offsets"] = stats.get("handed_constant_offsets", 0) + 1
+
+
 def describe(t):
     """structure of an object handed to a block sampler, in the format of the driver op `tg`"""
     from cuqi.distribution import JointDistribution, Posterior, Distribution
@@ -249,6 +369,7 @@ def build_joint(cuqi, rs, tmpl):
         dens = [dens[i] for i in rs.permutation(len(dens))]
         J0 = JointDistribution(*dens)
         roles["__graph__"] = graph_of(J0, [])
+        roles["__joint0__"], roles["__datav__"] = J0, {}
         return J0, roles
     if tmpl == "G":       # hierarchies a -> b -> x whose consecutive members depend on each other directly
         if rs.rand() < 0.5:   # two hyper-parameters, the rate of the second is the first
@@ -269,6 +390,7 @@ def build_joint(cuqi, rs, tmpl):
         roles.update(meta)
         J0 = JointDistribution(*(free + [y]))
         roles["__graph__"] = graph_of(J0, [R("y")])
+        roles["__joint0__"], roles["__datav__"] = J0, {R("y"): data}
         return J0(**{R("y"): data}), roles
     if tmpl == "H":       # hyper-parameter in the prior and one in the likelihood
         d, l = gam("d"), gam("l")
@@ -315,6 +437,7 @@ def build_joint(cuqi, rs, tmpl):
     roles.update(meta)
     J0 = JointDistribution(*dens)
     roles["__graph__"] = graph_of(J0, [R("y")])
+    roles["__joint0__"], roles["__datav__"] = J0, {R("y"): data}
     post = J0(**{R("y"): data})
     return post, roles
 
@@ -727,6 +850,8 @@ def run_hybrid(ctx, cuqi, idx, rs, thorough, stats):
     seen_struct = {n: {describe(G.samplers[n].target)} for n in par_names}     # the targets set by `_set_targets` in the constructor
     init_kinds = {n: kind_of(G.current_samples[n]) for n in par_names}
     pts_kinds, stored_kinds = [], []
+    tv_items = []
+    attr_prev, attr_obs = {}, []
 
     def fail(aspect, cls, demanded, got, what, extra=None):
         key = f"{K}:{aspect}" + (f":{cls}" if cls else "")
@@ -761,6 +886,23 @@ def run_hybrid(ctx, cuqi, idx, rs, thorough, stats):
                 attr, cval = cache_read(s)
                 events.append(("V", n, oth, before, (attr, cval, tgt), len(s._acc)))
                 seen_struct.setdefault(n, set()).add(describe(tgt))
+                if n in attr_prev and len(attr_obs) < 40:
+                    keys_ = sorted(set(s._STATE_KEYS) | set(s._HISTORY_KEYS)) + ["initial_point", "step_size", "opt_acc_rate"]
+                    attr_obs.append((n, cls, isinstance(s, NUTS), sorted(s._STATE_KEYS), sorted(s._HISTORY_KEYS),
+                                     {a: snap_attr(getattr(s, a, None)) for a in keys_}, dict(attr_prev[n]), (cur[n].copy(), {a: vec(getattr(s, a)).copy() for a in ("current_point", "initial_point")}),
+                                     getattr(s, "step_size", None), (snap_attr(type(s)().max_depth) if isinstance(s, NUTS) else None),
+                                     (float(np.log(10 * np.asarray(s._epsilon, dtype=float).reshape(-1)[0])), float(np.asarray(s._mu, dtype=float).reshape(-1)[0])) if isinstance(s, NUTS) else None))
+                if state.get("tv", 0) < 6 and "__joint0__" in roles:
+                    state["tv"] = state.get("tv", 0) + 1
+                    try:
+                        prs = probes(None, before, scales.get(n))
+                        r_ = tv_lines(roles["__joint0__"], roles["__datav__"], dict(expected, **{n: before}), n, prs)
+                        if r_ is not None:
+                            rl = [tlogd(tgt, p_) for p_ in prs]
+                            if all(math.isfinite(t_) for t_ in rl):
+                                tv_items.append((r_[0], rl, n, r_[1]))
+                    except Exception:
+                        stats["probe_errors"] = stats.get("probe_errors", 0) + 1
                 # ORACLE: starts from the block's current value
                 if not np.array_equal(before, cur[n]):
                     fail("start", cls, cur[n].tolist(), before.tolist(), "the block sampler does not start from the block's current value")
@@ -821,6 +963,9 @@ def run_hybrid(ctx, cuqi, idx, rs, thorough, stats):
             if state["count"].get(n, 0) != cfg[n]:
                 fail("steps", None, {n: cfg[n]}, {n: state["count"].get(n, 0)}, "a block sampler is not advanced by the configured number of transitions")
         orig_store()
+        for n in par_names:
+            s_ = G.samplers[n]
+            attr_prev[n] = {a: snap_attr(getattr(s_, a, None)) for a in sorted(set(s_._STATE_KEYS) | set(s_._HISTORY_KEYS)) + ["initial_point", "step_size", "opt_acc_rate"]}
         pts_kinds.append({n: kind_of(G.samplers[n].current_point) for n in par_names})
         stored_kinds.append({n: kind_of(G.samples[n][-1]) for n in par_names})
         snap = {n: vec(G.current_samples[n]).copy() for n in par_names}
@@ -953,6 +1098,22 @@ def run_hybrid(ctx, cuqi, idx, rs, thorough, stats):
     state["ftol"] = ftol
     pend = [(line, (lambda out: compare_hybrid(ctx, K, desc, out, events, draws, snapshots, par_names, post, G, stats, state)))]
     pend.extend(sh_pend)
+    try:
+        gdims_ = {n_: int(smp[n_].geometry.par_dim) for n_ in par_names}
+    except Exception:
+        gdims_ = None
+
+    def after_tc(out, gdims_=gdims_):
+        f = out.split("|")
+        if len(f) != 5 or f[1] != "H0=ok":
+            ctx.disagree(f"{K}:construct:target-class", desc, out[:100], "constructed and ran", "the model refuses the class of a target the constructor accepts"); return
+        m_d = {it.split(":")[0]: it.split(":")[1] for it in f[4].split(",")}
+        stats["geometry_ties"] = stats.get("geometry_ties", 0) + 1
+        if gdims_ is not None and gdims_ != {a: int(b) for a, b in m_d.items() if b != "-"}:
+            ctx.disagree(f"{K}:stored:geometry", desc, m_d, gdims_, "the geometry get_samples() wraps the stored sweeps in is not that of the block's density")
+    pend.append((tc_line(roles["__graph__"]), after_tc))
+    pend.extend(nt_pending(ctx, K, desc, attr_obs, stats))
+    pend.extend(tv_pending(ctx, K, desc, tv_items, ftol, stats, lambda: f"{K}:target" in state["fails"]))
     for n in par_names:
         seen_struct[n].add(describe(G.samplers[n].target))
     pend.append((tg_line(roles["__graph__"]),
@@ -1190,6 +1351,7 @@ def run_legacy(ctx, cuqi, idx, rs, thorough, stats):
     state = {"order": [], "fails": set()}
     cur = {}
     seen_struct = {}
+    tv_items = []
 
     def fail(aspect, demanded, got, what, extra=None):
         key = f"{K}:{aspect}"
@@ -1237,6 +1399,17 @@ def run_legacy(ctx, cuqi, idx, rs, thorough, stats):
                 except Exception:
                     stats["probe_errors"] = stats.get("probe_errors", 0) + 1
             seen_struct.setdefault(n, set()).add(describe(self.target))
+            if cur and state.get("tv", 0) < 6 and "__joint0__" in roles:
+                state["tv"] = state.get("tv", 0) + 1
+                try:
+                    prs = probes(None, x0, scales.get(n))
+                    r_ = tv_lines(roles["__joint0__"], roles["__datav__"], dict({m: cur[m] for m in par_names if m != n}, **{n: x0}), n, prs)
+                    if r_ is not None:
+                        rl = [tlogd(self.target, p_) for p_ in prs]
+                        if all(math.isfinite(t_) for t_ in rl):
+                            tv_items.append((r_[0], rl, n, r_[1]))
+                except Exception:
+                    stats["probe_errors"] = stats.get("probe_errors", 0) + 1
             out = self.inner.step(x)
             res = vec(out).copy()
             events.append(("S", n, oth, x0, res, self.target))
@@ -1475,7 +1648,7 @@ def run_legacy(ctx, cuqi, idx, rs, thorough, stats):
                              "the block's sample array (allocation / continuation by hstack / column writes / last column) differs from the model's")
         if ar_ops[n] and ar_on:
             ar_pend.append((f"ar {dims[n]} " + ";".join(ar_ops[n]), after_ar))
-    return ar_pend + [(line, compare_legacy),
+    return ar_pend + tv_pending(ctx, K, desc, tv_items, ftol, stats, lambda: f"{K}:target" in state["fails"]) + [(line, compare_legacy),
             (tg_line(roles["__graph__"]),
              (lambda out: compare_structure(ctx, K, desc, out, par_names, G.target, seen_struct, stats, f"{K}:target" in state["fails"])))]
 
@@ -1526,6 +1699,7 @@ def run_graph(ctx, cuqi, idx, rs, thorough, stats):
     desc = {"iface": "both", "graph": [[n, dim, cv] for n, dim, cv in graph[0]], "observed": obs, "scenario": idx}
     seenH, seenL = {}, {}
     badH, badL = [], []
+    tvH = []
     errH = errL = None
     with seeded(ctx.seed * 1000003 + idx * 7919 + 3):
         try:
@@ -1543,6 +1717,15 @@ def run_graph(ctx, cuqi, idx, rs, thorough, stats):
                     oth_ = {m: (cur1[m] if j_ < i_ else cur0[m]) for j_, m in enumerate(G.par_names) if m != n}
                     ok_, a_, b_ = same_conditional(G.samplers[n].target, post, oth_, n, cur1[n])
                     stats["graph_target_probes"] = stats.get("graph_target_probes", 0) + 1
+                    try:        # value tie through the model on recorded leaf log-densities
+                        prs_ = probes(None, cur1[n])
+                        r_ = tv_lines(J0, {m: np.ones(dims[m]) for m in obs}, dict(oth_, **{n: cur1[n]}), n, prs_)
+                        if r_ is not None:
+                            rl_ = [tlogd(G.samplers[n].target, p_) for p_ in prs_]
+                            if all(math.isfinite(t_) for t_ in rl_):
+                                tvH.append((r_[0], rl_, n, r_[1]))
+                    except Exception:
+                        stats["probe_errors"] = stats.get("probe_errors", 0) + 1
                     if not ok_:
                         badH.append(n)
                         ctx.fail("HybridGibbs:target", dict(desc, at={"block": n, "others": {m: v.tolist() for m, v in oth_.items()}}), b_, a_,
@@ -1589,7 +1772,7 @@ def run_graph(ctx, cuqi, idx, rs, thorough, stats):
             compare_structure(ctx, "HybridGibbs", desc, out, parH, tgtH, seenH, stats, bool(badH))
         if errL is None:
             compare_structure(ctx, "Gibbs", desc, out, parL, tgtL, seenL, stats, bool(badL))
-    return [(tg_line(graph), after)]
+    return [(tg_line(graph), after)] + tv_pending(ctx, "HybridGibbs", desc, tvH, 1e-8, stats, lambda: bool(badH))
 
 
 # ----------------------------------------------------------------------------- kinds of the stored objects
@@ -1681,6 +1864,85 @@ def run_shapes(ctx, cuqi, idx, rs, thorough, stats):
     def after(out):
         compare_kinds(ctx, K, desc, out, par_names, stored_kinds, gs_err is not None, gs_shapes, stats)
     return [(line, after)]
+
+
+# ----------------------------------------------------------------------------- class of the target (validate_targets & co.)
+def tc_line(graph):
+    return "tc" + tg_line(graph)[2:]
+
+
+def run_single(ctx, cuqi, idx, rs, thorough, stats):
+    """targets with ONE free variable (a prior with 0-3 observed children: Distribution / Posterior /
+    MultipleLikelihoodPosterior) and, for contrast, with two: what `HybridGibbs.__init__` (`_get_initial_points`,
+    `validate_targets`) and the first legacy `sample` make of the class of the target, and the geometry get_samples()
+    wraps the stored sweeps in — model `hybridTargetVerdict` / `legacyTargetVerdict` / `samplesGeometryDim` (driver op `tc`).
+    Tie only: the property speaks of 2..k blocks."""
+    from cuqi.distribution import Gaussian, Gamma, JointDistribution
+    from cuqi.experimental.mcmc import HybridGibbs, MH
+    import cuqi.sampler as LS
+    n = int(rs.randint(1, 4)); k = int(rs.randint(0, 4)); two = rs.rand() < 0.25
+    dens, obs = [], {}
+    if two:
+        dens.append(Gamma(2.0, 1.0, name="d"))
+        x = Gaussian(np.zeros(n), lambda d: 1 / d, name="x")
+    else:
+        x = Gaussian(np.zeros(n), 1.0, name="x")
+    dens.append(x)
+    for i in range(k):
+        m = int(rs.randint(1, 4))
+        Am = rs.randint(-2, 3, size=(m, n)).astype(float); Am[0, 0] = 1.0
+        dens.append(Gaussian(cuqi.model.LinearModel(Am) @ x, 1.0, name=f"y{i}"))
+        obs[f"y{i}"] = rs.randint(-2, 3, size=m).astype(float)
+    if rs.rand() < 0.3:
+        dens.append(Gaussian(np.zeros(2), 1.0, name="z")); obs["z"] = np.ones(2)
+    dens = [dens[i] for i in rs.permutation(len(dens))]
+    with quiet():
+        J0 = JointDistribution(*dens)
+        post = J0(**obs) if obs else J0
+    graph = graph_of(J0, list(obs))
+    free = [d.name for d in J0._densities if d.name not in obs]
+    given = bool(rs.rand() < 0.5)
+    desc = {"iface": "both", "graph": [[a, b, c] for a, b, c in graph[0]], "observed": list(obs), "initial_points_given": given, "scenario": idx}
+    dims = {"x": n, "d": 1}
+    resH, resL, gdims = "ok", "ok", None
+    with seeded(ctx.seed * 1000003 + idx * 7919 + 5), quiet():
+        try:
+            G = HybridGibbs(post, {m_: MH(scale=0.1, initial_point=(np.ones(dims[m_]) if given else None)) for m_ in free})
+            G.sample(2)
+            gs = G.get_samples()
+            gdims = {m_: int(gs[m_].geometry.par_dim) for m_ in G.par_names}
+            if any(gs[m_].geometry is not G.target.get_density(m_).geometry for m_ in G.par_names):
+                gdims = "geometry object differs"
+        except Exception as e:
+            resH = type(e).__name__
+        try:
+            class Still:
+                def __init__(self, target):
+                    pass
+
+                def step(self, x_):
+                    return np.asarray(x_, dtype=float)
+            LS.Gibbs(post, {m_: Still for m_ in free}).sample(1)
+        except Exception as e:
+            resL = type(e).__name__
+    ctx.case(f"target-class:{len(free)}free:{k}children:{'given' if given else 'default'}-initial-points", desc)
+
+    def after(out):
+        f = out.split("|")
+        if len(f) != 5:
+            ctx.disagree("HybridGibbs:construct:target-class", desc, out[:100], [resH, resL], "unexpected model output"); return
+        stats["target_classes"][f[0]] = stats["target_classes"].get(f[0], 0) + 1
+        want_h = f[2][3:] if given else f[1][3:]
+        if want_h != resH:
+            ctx.disagree("HybridGibbs:construct:target-class", desc, {"target": f[0], "HybridGibbs": want_h}, resH,
+                         "what HybridGibbs.__init__ / two sweeps make of a target of this class differs (validate_targets, get_density)"); return
+        if f[3][2:] != resL:
+            ctx.disagree("Gibbs:construct:target-class", desc, {"target": f[0], "legacy": f[3][2:]}, resL, "what the first legacy sample call makes of a target of this class differs"); return
+        if resH == "ok":
+            m_d = {it.split(":")[0]: it.split(":")[1] for it in f[4].split(",")}
+            if gdims != {a: int(b) for a, b in m_d.items() if b != "-"}:
+                ctx.disagree("HybridGibbs:stored:geometry", desc, m_d, gdims, "the geometry get_samples() wraps the stored sweeps in is not that of the block's density")
+    return [(tc_line(graph), after)]
 
 
 # ----------------------------------------------------------------------------- legacy strategy parsing
@@ -1816,7 +2078,7 @@ def run(ctx):
     thorough = ctx.tier == "thorough"
     n_h = 60 if not thorough else 60 * min(ctx.scale * 2, 25)
     n_l = 40 if not thorough else 40 * min(ctx.scale * 2, 25)
-    stats = {"sampler_hist": {}, "odd_initial_points": {}, "handed_kinds": {}, "tune_intervals": {}, "lstrategy": {}, "get_samples_outcomes": {}}
+    stats = {"sampler_hist": {}, "odd_initial_points": {}, "handed_kinds": {}, "tune_intervals": {}, "lstrategy": {}, "get_samples_outcomes": {}, "state_origins": {}, "target_classes": {}}
     ctx.trusted += ["recording proxies of harness/props/c09.py (instance-level wrappers of sampler.step, _store_samples, _get_initial_points; class-level wrapper of JointDistribution._condition, removed after each run)",
                     "JointDistribution.logd of the unconditioned posterior as the reference for the handed targets (C01)"]
     ctx.assumptions += ["block transitions are leaf data: the point after each step() of the real sampler is fed to the model; what the sampler does with its target is the subject of C02/C06/C08/C10",
@@ -1850,6 +2112,9 @@ def run(ctx):
     n_g = 40 if not thorough else 40 * min(ctx.scale * 2, 25)
     for i in range(n_g):
         guarded(run_graph, "graph", i, np.random.RandomState((ctx.seed * 7919 + i * 104729 + 7000003) % (2 ** 32)))
+    n_c = 24 if not thorough else 24 * min(ctx.scale * 2, 25)
+    for i in range(n_c):
+        guarded(run_single, "HybridGibbs", i, np.random.RandomState((ctx.seed * 7919 + i * 104729 + 13000033) % (2 ** 32)))
     n_k = 30 if not thorough else 30 * min(ctx.scale * 2, 25)
     for i in range(n_k):
         guarded(run_shapes, "HybridGibbs", i, np.random.RandomState((ctx.seed * 7919 + i * 104729 + 11000027) % (2 ** 32)))
